@@ -160,7 +160,7 @@ def audit(prop: str, prop_modules: list[str]) -> dict:
     audit_file = os.path.join(LEAN, "DV", "Audit", f"{prop}.lean")
     src = "-- GENERATED by harness/common.py: axiom audit of the property theorems.\n"
     src += "".join(f"import {m}\n" for m in good_mods)
-    src += "open DV\n"
+    src += "open DV\nopen DV.Node\n" if any("NodeQ" in open(f).read() or "namespace DV.Node" in open(f).read() for f in lean_files_of(good_mods)) else "open DV\n"
     for mod, t in thms:
         if mod in good_mods:
             src += f"#print axioms {t}\n"
@@ -175,7 +175,7 @@ def audit(prop: str, prop_modules: list[str]) -> dict:
         for mod, t in thms:
             if mod not in good_mods:
                 continue
-            m = re.search(r"'(?:DV\.)?" + re.escape(t) + r"' (does not depend on any axioms|depends on axioms: \[([^\]]*)\])", text)
+            m = re.search(r"'(?:[A-Za-z.]*\.)?" + re.escape(t) + r"' (does not depend on any axioms|depends on axioms: \[([^\]]*)\])", text)
             if not m:
                 bad[t] = ["<no audit output>"]
                 continue
